@@ -357,6 +357,10 @@ func (res *Written) runOpsNoClose(c *core.Ctx, ops []WOp) {
 			if err != nil {
 				res.FirstErr, res.ErrOp = err, "flush"
 			}
+		case "emptyrg":
+			if _, err := res.W.WriteRowGroup(res.Shape.NewBuffer(gen.BUntyped)); err != nil {
+				res.FirstErr, res.ErrOp = err, "write-empty-row-group"
+			}
 		}
 	}
 }
